@@ -1,6 +1,7 @@
 package main
 
 import (
+	"strconv"
 	"bytes"
 	"fmt"
 	"go/ast"
@@ -148,6 +149,48 @@ func init() {
 				return "", fmt.Errorf("switch %s not found in %s.addValue", a.tag, a.recv)
 			}
 			fmt.Fprintf(&sb, "def %sCases : List String := %s\n", a.name, ipLeanStrList(names))
+			if a.name != "vec" {
+				// Process admits exactly the names addValue has a case for: one case clause listing them (empty body),
+				// the default clause answers NotSupported
+				pd := findFunc(f, a.recv, "Process")
+				if pd == nil {
+					return "", fmt.Errorf("%s.Process not found", a.recv)
+				}
+				var admitted, deflt []string
+				okSw := false
+				ast.Inspect(pd.Body, func(n ast.Node) bool {
+					sw, isSw := n.(*ast.SwitchStmt)
+					if !isSw || okSw || sw.Tag == nil || ipExprText(fset, sw.Tag) != a.tag {
+						return true
+					}
+					okSw = true
+					for _, st := range sw.Body.List {
+						cc := st.(*ast.CaseClause)
+						if cc.List == nil {
+							for _, b := range cc.Body {
+								deflt = append(deflt, ipExprText(fset, b))
+							}
+							continue
+						}
+						if len(cc.Body) != 0 {
+							continue
+						}
+						for _, e := range cc.List {
+							if bl, isLit := e.(*ast.BasicLit); isLit {
+								if v, err := strconv.Unquote(bl.Value); err == nil {
+									admitted = append(admitted, v)
+								}
+							}
+						}
+					}
+					return false
+				})
+				if !okSw {
+					return "", fmt.Errorf("switch %s not found in %s.Process", a.tag, a.recv)
+				}
+				fmt.Fprintf(&sb, "/-- the function names `Process` admits (every other name: the default clause) -/\ndef %sAdmitted : List String := %s\n", a.name, ipLeanStrList(admitted))
+				fmt.Fprintf(&sb, "def %sRefusal : List String := %s\n", a.name, ipLeanStrList(deflt))
+			}
 			bound, ok := firstIfCond(fset, fd.Body.List)
 			if !ok {
 				bound = ""
